@@ -67,6 +67,7 @@ func (x *sliceInst) Ops() []space.Op {
 		for v := 0; v < numValues; v++ {
 			ops = append(ops, space.Op{Name: "PopAllPush", Args: []int{v}})
 		}
+		ops = append(ops, space.Op{Name: "PopAllUnused"}, space.Op{Name: "PopAllStopThenAgain"})
 	}
 	return ops
 }
@@ -123,6 +124,33 @@ func (x *sliceInst) apply(op space.Op) *space.Mismatch {
 			x.model = rest // every yielded element has left the heap, the others are still in it (Check)
 		}
 
+	case "PopAllUnused":
+		before := append([]int(nil), x.s.Values...)
+		seq := x.s.PopAll()
+		_ = seq
+		if !sameMultiset(before, x.s.Values) {
+			return mm("Slice.PopAll|element-lost-or-duplicated", "calling PopAll() without ranging over the result changed the heap from %v to %v", before, x.s.Values)
+		}
+
+	case "PopAllStopThenAgain":
+		want := sorted(x.model)
+		seq := x.s.PopAll()
+		var got []int
+		for v := range seq {
+			got = append(got, v)
+			break
+		}
+		for v := range seq {
+			got = append(got, v)
+			if len(got) > len(want)+2 {
+				break
+			}
+		}
+		if !sameMultiset(got, want) || len(x.s.Values) != 0 {
+			return mm("Slice.PopAll|element-lost-or-duplicated", "one PopAll() sequence ranged twice (stopped after one element, then to the end) yielded %v and left %v; want a permutation of %v and an empty heap", got, x.s.Values, want)
+		}
+		x.model = nil
+
 	case "PopAllPush":
 		pv := op.Args[0]
 		want := append(sorted(x.model), pv)
@@ -136,10 +164,12 @@ func (x *sliceInst) apply(op space.Op) *space.Mismatch {
 				break
 			}
 		}
-		if !sameMultiset(got, want) {
-			return mm("Slice.PopAll|element-lost-or-duplicated", "PopAll with Push(%d) while handling the first element yielded %v, want a permutation of %v", pv, got, sorted(want))
+		// yielded + still in the heap = old content + pushed value (see Heap)
+		all := append(append([]int(nil), got...), x.s.Values...)
+		if !sameMultiset(all, want) || len(x.s.Values) > 1 || (len(x.s.Values) == 1 && x.s.Values[0] != pv) {
+			return mm("Slice.PopAll|element-lost-or-duplicated", "PopAll with Push(%d) while handling the first element yielded %v and left %v; want yielded + left = a permutation of %v (only the pushed value may be left)", pv, got, x.s.Values, sorted(want))
 		}
-		x.model = nil
+		x.model = append([]int(nil), x.s.Values...)
 
 	case "Peek":
 		before := append([]int(nil), x.s.Values...)
